@@ -24,6 +24,10 @@ func invoke(e *Event, fn func() result) { invokeOn(e, nil, nil, fn) }
 
 // invokeOn additionally runs before/after on the goroutine that executes the call.
 func invokeOn(e *Event, before, after func(), fn func() result) {
+	if freshMode && e.Scn != "probe" && !freshRe.MatchString(e.Scn) {
+		e.Kind = "skipped" // fresh pass: only the history-sensitive sequences touch the library (see main.go)
+		return
+	}
 	type out struct {
 		r     result
 		panic any
